@@ -141,6 +141,8 @@ pub fn mpqs(n: Uint, k: u32, prefs: &Preferences, tpool: Option<&rayon::ThreadPo
     };
 
     fn process_poly_block(s: &SieveMPQS, wks: &mut Workspace, dbase: u128, dstride: usize) {
+        #[cfg(yamaquasi_verif)]
+        simsync::probe::unit_begin("mpqs_block");
         let d_r_values = sieve_for_polys(&s.n, dbase, dstride);
         if s.prefs.verbose(Verbosity::Verbose) {
             eprintln!(
